@@ -266,9 +266,48 @@ func (g *G) powBoundary() (dec, dec) {
 	return xd, mk(neg, int64(y*1000), -3)
 }
 
+// powAmplified: a short mantissa anywhere in [1,10) (often just below the next slot of the ln table: d.d999)
+// raised to a large power that stays in range, so that an error of the logarithm is amplified |y| times.
+func (g *G) powAmplified() (dec, dec) {
+	c := int64(1000 + g.pick(9000))
+	switch g.pick(3) {
+	case 0:
+		c = c/100*100 + 99 // d.d99
+	case 1:
+		c = c / 100 * 100 // d.d00
+	}
+	if c == 1000 {
+		c = 1001
+	}
+	e := -3
+	if g.chance(0.3) {
+		c = c*10 + 9
+		e = -4
+	}
+	x := float64(c) * math.Pow(10, float64(e))
+	ymax := 6000 / math.Abs(math.Log10(x))
+	if ymax > 9e15 {
+		ymax = 9e15
+	}
+	y := int64(ymax * (0.05 + 0.95*g.r.Float64()))
+	if g.chance(0.3) {
+		y = int64(float64(y) * g.r.Float64() * g.r.Float64())
+	}
+	if y < 1 {
+		y = 1
+	}
+	if g.chance(0.3) && y > 1000 {
+		return mk(false, c, e), mk(g.chance(0.5), y/1000*1000+int64(g.pick(1000)), 0)
+	}
+	return mk(false, c, e), mk(g.chance(0.5), y, 0)
+}
+
 func (g *G) powPair() (dec, dec) {
 	if g.chance(0.2) {
 		return g.powBoundary()
+	}
+	if g.chance(0.15) {
+		return g.powAmplified()
 	}
 	switch g.pick(10) {
 	case 0: // powers of ten with integer exponents
